@@ -34,6 +34,7 @@ P_names == <<TMinus, TPlus>>
 P_git == <<TGit>>
 P_git_index == <<TGit, [k |-> "index", o |-> "12ab", n |-> "34cd"]>>
 P_in_hunk == <<TMinus, TPlus, THH22>>
+P_after_create == <<TMinus, TPlus, [k |-> "hh", os |-> 0, oc |-> 0, ns |-> 1, nc |-> 1], [k |-> "add", s |-> "p"]>>
 P_after_hunk == <<TMinus, TPlus, THH11, [k |-> "del", s |-> "p"], [k |-> "add", s |-> "p"]>>
 
 Init == toks = Prefix /\ trunc = FALSE
